@@ -225,7 +225,7 @@ inductive ChordItem
   | group (items : List ChordItem)
 
 /-- `add_chord(chord, duration)` of `from_chords` (after the repair: rests are split like chords) -/
-partial def addChord (t : Track) (item : ChordItem) (v : Rat) : Except Err Track :=
+def addChord (t : Track) (item : ChordItem) (v : Rat) : Except Err Track :=
   match item with
   | .group items => items.foldlM (fun t c => addChord t c (F64.mul v 2)) t
   | leaf => do
